@@ -46,6 +46,17 @@
 #include "lpdata_mpq.h"
 #include "simplex_mpq.h"
 
+#ifdef QSOPT_EX_VERIF
+/* verification hooks (off unless the harness installs them; never defined in a normal build) */
+void (*QSexact_verif_hook) (const char *ev, int a, int b) = 0;
+int (*QSexact_verif_fault) (const char *where) = 0;
+#define QSVERIF_EVENT(ev,a,b) do { if (QSexact_verif_hook) QSexact_verif_hook ((ev), (a), (b)); } while (0)
+#define QSVERIF_FAULT(where) (QSexact_verif_fault && QSexact_verif_fault (where))
+#else
+#define QSVERIF_EVENT(ev,a,b) do { } while (0)
+#define QSVERIF_FAULT(where) 0
+#endif
+
 /* ========================================================================= */
 int QSexact_print_sol (mpq_QSdata * p,
 											 EGioFile_t * out_f)
@@ -422,6 +433,11 @@ int QSexact_optimal_test (mpq_QSdata * p,
 	mpq_init (d_obj);
 	mpq_set_ui (p_obj, 0UL, 1UL);
 	mpq_set_ui (d_obj, 0UL, 1UL);
+	if (QSVERIF_FAULT ("opt_test"))
+	{
+		rval = 0;
+		goto CLEANUP;
+	}
 
 	/* now check if the given basis is the optimal basis */
 	arr3 = qslp->lower;
@@ -843,6 +859,11 @@ int QSexact_infeasible_test (mpq_QSdata * p,
 	mpq_init (num3);
 	mpq_init (d_obj);
 	mpq_set_ui (d_obj, 0UL, 1UL);
+	if (QSVERIF_FAULT ("inf_test"))
+	{
+		rval = 0;
+		goto CLEANUP;
+	}
 
 	/* compute the dual objective value */
 	arr2 = qslp->rhs;
@@ -1458,6 +1479,7 @@ int QSexact_solver (mpq_QSdata * p_mpq,
 	 *y_mpf = 0;
 	int const msg_lvl = __QS_SB_VERB <= DEBUG ? 0: (1 - p_mpq->simplex_display) * 10000;
 	*status = 0;
+	QSVERIF_EVENT ("enter", simplexalgo, (ebasis && ebasis->nstruct) ? 1 : 0);
 	/* save the problem if we are really debugging */
 	if(DEBUG >= __QS_SB_VERB)
 	{
@@ -1477,8 +1499,10 @@ int QSexact_solver (mpq_QSdata * p_mpq,
 		MESSAGE(p_mpq->simplex_display ? 0: __QS_SB_VERB, 
 						"double approximation failed, code %d, "
 						"continuing in extended precision", rval);
+		QSVERIF_EVENT ("fsolve", 0, 1);
 		goto MPF_PRECISION;
 	}
+	QSVERIF_EVENT ("fsolve", 0, 0);
 	EGcallD(dbl_QSget_status (p_dbl, status));
 	if ((*status == QS_LP_INFEASIBLE) &&
 			(p_dbl->lp->final_phase != PRIMAL_PHASEI) &&
@@ -1487,6 +1511,7 @@ int QSexact_solver (mpq_QSdata * p_mpq,
 	EGcallD(dbl_QSget_status (p_dbl, status));
 	last_status = *status;
 	EGcallD(dbl_QSget_itcnt(p_dbl, 0, 0, 0, 0, &last_iter));
+	QSVERIF_EVENT ("fstatus", *status, last_iter);
 	/* deal with the problem depending on what status we got from our optimizer */
 	switch (*status)
 	{
@@ -1502,12 +1527,15 @@ int QSexact_solver (mpq_QSdata * p_mpq,
 		basis = dbl_QSget_basis (p_dbl);
 		if (QSexact_optimal_test (p_mpq, x_mpq, y_mpq, basis))
 		{
+			QSVERIF_EVENT ("opt_test", 1, 0);
 			optimal_output (p_mpq, x, y, x_mpq, y_mpq);
 			goto CLEANUP;
 		}
 		else
 		{
+			QSVERIF_EVENT ("opt_test", 0, 0);
 			EGcallD(QSexact_basis_status (p_mpq, status, basis, msg_lvl, &simplexalgo));
+			QSVERIF_EVENT ("bstatus", *status, 0);
 			if (*status == QS_LP_OPTIMAL)
 			{
 				if(!msg_lvl)
@@ -1518,11 +1546,13 @@ int QSexact_solver (mpq_QSdata * p_mpq,
 				EGcallD(mpq_QSget_pi_array (p_mpq, y_mpq));
 				if (QSexact_optimal_test (p_mpq, x_mpq, y_mpq, basis))
 				{
+					QSVERIF_EVENT ("opt_test", 1, 0);
 					optimal_output (p_mpq, x, y, x_mpq, y_mpq);
 					goto CLEANUP;
 				}
 				else
 				{
+					QSVERIF_EVENT ("opt_test", 0, 0);
 					last_status = *status = QS_LP_UNSOLVED;
 				}
 			}
@@ -1549,14 +1579,17 @@ int QSexact_solver (mpq_QSdata * p_mpq,
 		dbl_EGlpNumFreeArray (y_dbl);
 		if (QSexact_infeasible_test (p_mpq, y_mpq))
 		{
+			QSVERIF_EVENT ("inf_test", 1, 0);
 			infeasible_output (p_mpq, y, y_mpq);
 			goto CLEANUP;
 		}
 		else
 		{
+			QSVERIF_EVENT ("inf_test", 0, 0);
 			MESSAGE (msg_lvl, "Retesting solution in exact arithmetic");
 			basis = dbl_QSget_basis (p_dbl);
 			EGcallD(QSexact_basis_status (p_mpq, status, basis, msg_lvl, &simplexalgo));
+			QSVERIF_EVENT ("bstatus", *status, 0);
 			#if 0
 			mpq_QSset_param (p_mpq, QS_PARAM_SIMPLEX_MAX_ITERATIONS, 1);
 			mpq_QSload_basis (p_mpq, basis);
@@ -1571,11 +1604,13 @@ int QSexact_solver (mpq_QSdata * p_mpq,
 				EGcallD(mpq_QSget_infeas_array (p_mpq, y_mpq));
 				if (QSexact_infeasible_test (p_mpq, y_mpq))
 				{
+					QSVERIF_EVENT ("inf_test", 1, 0);
 					infeasible_output (p_mpq, y, y_mpq);
 					goto CLEANUP;
 				}
 				else
 				{
+					QSVERIF_EVENT ("inf_test", 0, 0);
 					last_status = *status = QS_LP_UNSOLVED;
 				}
 			}
@@ -1657,8 +1692,10 @@ int QSexact_solver (mpq_QSdata * p_mpq,
 				QSlog("mpf_%u precision falied, error code %d, continuing with "
 										"next precision", precision, rval);
 			 }
+			QSVERIF_EVENT ("fsolve", QS_EXACT_MAX_ITER - it, 1);
 			goto NEXT_PRECISION;
 		}
+		QSVERIF_EVENT ("fsolve", QS_EXACT_MAX_ITER - it, 0);
 		EGcallD(mpf_QSget_status (p_mpf, status));
 		if ((*status == QS_LP_INFEASIBLE) &&
 				(p_mpf->lp->final_phase != PRIMAL_PHASEI) &&
@@ -1667,6 +1704,7 @@ int QSexact_solver (mpq_QSdata * p_mpq,
 		EGcallD(mpf_QSget_status (p_mpf, status));
 		last_status = *status;
 		EGcallD(mpf_QSget_itcnt(p_mpf, 0, 0, 0, 0, &last_iter));
+		QSVERIF_EVENT ("fstatus", *status, last_iter);
 		/* deal with the problem depending on status we got from our optimizer */
 		switch (*status)
 		{
@@ -1682,12 +1720,15 @@ int QSexact_solver (mpq_QSdata * p_mpq,
 			mpf_EGlpNumFreeArray (y_mpf);
 			if (QSexact_optimal_test (p_mpq, x_mpq, y_mpq, basis))
 			{
+				QSVERIF_EVENT ("opt_test", 1, 0);
 				optimal_output (p_mpq, x, y, x_mpq, y_mpq);
 				goto CLEANUP;
 			}
 			else
 			{
+				QSVERIF_EVENT ("opt_test", 0, 0);
 				EGcallD(QSexact_basis_status (p_mpq, status, basis, msg_lvl, &simplexalgo));
+				QSVERIF_EVENT ("bstatus", *status, 0);
 				if (*status == QS_LP_OPTIMAL)
 				{
 					MESSAGE (msg_lvl, "Retesting solution");
@@ -1695,11 +1736,13 @@ int QSexact_solver (mpq_QSdata * p_mpq,
 					EGcallD(mpq_QSget_pi_array (p_mpq, y_mpq));
 					if (QSexact_optimal_test (p_mpq, x_mpq, y_mpq, basis))
 					{
+						QSVERIF_EVENT ("opt_test", 1, 0);
 						optimal_output (p_mpq, x, y, x_mpq, y_mpq);
 						goto CLEANUP;
 					}
 					else
 					{
+						QSVERIF_EVENT ("opt_test", 0, 0);
 						last_status = *status = QS_LP_UNSOLVED;
 					}
 				}
@@ -1716,14 +1759,17 @@ int QSexact_solver (mpq_QSdata * p_mpq,
 			mpf_EGlpNumFreeArray (y_mpf);
 			if (QSexact_infeasible_test (p_mpq, y_mpq))
 			{
+				QSVERIF_EVENT ("inf_test", 1, 0);
 				infeasible_output (p_mpq, y, y_mpq);
 				goto CLEANUP;
 			}
 			else
 			{
+				QSVERIF_EVENT ("inf_test", 0, 0);
 				MESSAGE (msg_lvl, "Retesting solution in exact arithmetic");
 				basis = mpf_QSget_basis (p_mpf);
 				EGcallD(QSexact_basis_status (p_mpq, status, basis, msg_lvl, &simplexalgo));
+				QSVERIF_EVENT ("bstatus", *status, 0);
 #if 0
 				mpq_QSset_param (p_mpq, QS_PARAM_SIMPLEX_MAX_ITERATIONS, 1);
 				mpq_QSload_basis (p_mpq, basis);
@@ -1738,11 +1784,13 @@ int QSexact_solver (mpq_QSdata * p_mpq,
 					EGcallD(mpq_QSget_infeas_array (p_mpq, y_mpq));
 					if (QSexact_infeasible_test (p_mpq, y_mpq))
 					{
+						QSVERIF_EVENT ("inf_test", 1, 0);
 						infeasible_output (p_mpq, y, y_mpq);
 						goto CLEANUP;
 					}
 					else
 					{
+						QSVERIF_EVENT ("inf_test", 0, 0);
 						last_status = *status = QS_LP_UNSOLVED;
 					}
 				}
@@ -1766,6 +1814,7 @@ int QSexact_solver (mpq_QSdata * p_mpq,
 	}
 	/* ending */
 CLEANUP:
+	QSVERIF_EVENT ("return", *status, rval);
 	dbl_EGlpNumFreeArray (x_dbl);
 	dbl_EGlpNumFreeArray (y_dbl);
 	mpq_EGlpNumFreeArray (x_mpq);
